@@ -350,6 +350,23 @@ class Executor:
         return outs
 
     def st_AugAssign(self, node, state):
+        if isinstance(node.target, ast.Name) and isinstance(state.env.get(node.target.id), SArr) and isinstance(node.op, (ast.Add, ast.Sub, ast.Mult)):
+            # ndarray.__iadd__ etc. work in place: same object, same buffer, same dtype (NumPy refuses to cast complex into real),
+            # the operand is broadcast into the target
+            tgt = state.env[node.target.id]
+            outs = []
+            for s, v in self.eval_forks(node.value, state):
+                t = s.env[node.target.id]
+                if isinstance(v, SArr):
+                    npmodel.oblige_broadcast_into(self, s, v.shape, t.shape, node.lineno)
+                    self.ctx.oblige(s, 'no-complex-into-real', node.lineno, z3.Or(z3.Not(v.cplx), t.cplx), 'in-place arithmetic cannot cast a complex operand into a real array')
+                elif isinstance(v, SNum):
+                    self.ctx.oblige(s, 'no-complex-into-real', node.lineno, z3.Or(z3.Not(v.cplx), t.cplx), 'in-place arithmetic cannot cast a complex operand into a real array')
+                elif not (is_conc_int(v) or isinstance(v, (float, z3.ArithRef))):
+                    raise Unsupported('in-place arithmetic with %s at line %d' % (type(v).__name__, node.lineno))
+                self.write_buffer(t.buf, s, node.lineno, 'in-place arithmetic')
+                outs.append(Outcome('normal', s))
+            return outs
         binop = ast.BinOp(left=_load(node.target), op=node.op, right=node.value)
         ast.copy_location(binop, node)
         ast.fix_missing_locations(binop)
@@ -876,6 +893,12 @@ class Executor:
                     old = cs.fn
                     cs.fn = lambda j, old=old: widen5(old(j))
                     cs.kind = 'arr5'
+                ek = kinds.get('%s.%s[]' % (ast.unparse(tgt.value), tgt.attr))
+                if ek is not None and isinstance(v, SList) and v.items is not None:
+                    # a list of lists declared by the contract: every inner list holds Optional arrays of the declared rank
+                    for inner in v.items:
+                        if isinstance(inner, SList) and inner.kind == 'any':
+                            inner.kind = ek
                 obj.f[tgt.attr] = v
             else:
                 raise Unsupported('attribute store on %s at line %d' % (type(obj).__name__, node.lineno))
